@@ -29,12 +29,13 @@ const (
 	C07ImplicitCase // outside the claim: target is (or lies below) a shorthand choice member
 	C07SubNoPrefix  // augment inside a submodule whose first step carries no prefix
 	C07ActionNoIO   // action without input/output statement, augment of its implicit input/output
+	C07EmptyDir     // childless containers inside a grouping used at 2-3 places, augmented at some instances only
 	C07NumShapes    // number of shapes
 )
 
 // C07ShapeNames names the shapes (Distribution keys).
 var C07ShapeNames = [...]string{"mixed", "chain-worst", "chain-random", "uses-target", "choice-case", "rpc-notif", "collision",
-	"non-container", "missing", "body-error", "submodule", "body-variety", "implicit-case(outside-claim)", "sub-noprefix", "action-no-io"}
+	"non-container", "missing", "body-error", "submodule", "body-variety", "implicit-case(outside-claim)", "sub-noprefix", "action-no-io", "childless-grouping-node"}
 
 // Expectations for one augment statement.
 const (
@@ -76,6 +77,8 @@ type C07Aug struct {
 	OutsideClaim bool      `json:"outside,omitempty"`
 	SubNoPrefix  bool      `json:"subnoprefix,omitempty"`
 	ActionNoIO   bool      `json:"actionnoio,omitempty"`
+	// Childless: the target is an instance of a childless container of a grouping that is used at several places.
+	Childless bool `json:"childless,omitempty"`
 }
 
 // C07Set is a generated set plus knowledge.
@@ -130,6 +133,9 @@ type c07g struct {
 	byNS    map[string]*Module
 	shapes  []string
 	outside bool
+	// childless containers inside groupings that are used at several places (statement nodes)
+	empties   []*Node
+	wantEmpty bool
 }
 
 func (g *c07g) chance(p float64) bool   { return g.r.Float64() < p }
@@ -158,6 +164,7 @@ func (g *c07g) leaf(p *Node, name string) *Node {
 // GenerateC07 builds one set of the given shape.
 func GenerateC07(r *rand.Rand, shape int) *C07Set {
 	g := &c07g{r: r, set: &Set{}, byNS: map[string]*Module{}}
+	g.wantEmpty = shape == C07EmptyDir || (shape == C07Mixed && g.chance(0.35))
 	g.modules(shape)
 	g.groupings()
 	g.bases(shape)
@@ -175,6 +182,9 @@ func GenerateC07(r *rand.Rand, shape int) *C07Set {
 				g.op([]int{C07Collision, C07NonContainer, C07Missing, C07BodyError, C07Collision, C07Missing}[r.Intn(6)])
 			}
 		}
+		if g.wantEmpty {
+			g.op(C07EmptyDir)
+		}
 		if g.chance(0.03) {
 			g.op(C07ImplicitCase)
 		}
@@ -187,6 +197,13 @@ func GenerateC07(r *rand.Rand, shape int) *C07Set {
 	case C07ChainWorst:
 		order = 0
 		g.op(shape)
+	case C07EmptyDir:
+		for i := 0; i < 1+r.Intn(2); i++ {
+			g.op(shape)
+		}
+		if g.chance(0.4) {
+			g.op(g.cleanOp())
+		}
 	default:
 		g.op(shape)
 		if g.chance(0.4) {
@@ -207,7 +224,7 @@ func (g *c07g) modules(shape int) {
 	switch {
 	case shape == C07ChainWorst || shape == C07ChainRandom:
 		nm = 2 + r.Intn(3)
-	case g.chance(0.1):
+	case g.chance(0.1) && shape != C07EmptyDir:
 		nm = 1
 	}
 	names := []string{"a", "b", "c", "d"}
@@ -434,10 +451,159 @@ func (g *c07g) bases(shape int) {
 	for _, f := range need {
 		g.feature(g.mods[g.r.Intn(len(g.mods))], f)
 	}
+	if g.wantEmpty {
+		g.emptyBase()
+	}
 	for _, m := range g.mods {
 		n := 1 + g.r.Intn(2)
 		for i := 0; i < n; i++ {
 			g.feature(m, g.r.Intn(8))
+		}
+	}
+}
+
+// emptyBase adds a grouping that holds childless containers (empty, presence, nested one level inside
+// a non-empty container) and uses it at 2-3 places: in its own module at different containers and in
+// other modules through the import prefix. Every instance must stay an independent node: what an
+// augment puts into one instance may not show up in another.
+func (g *c07g) emptyBase() {
+	var homes []*Module
+	for _, m := range g.mods {
+		if !m.Sub {
+			homes = append(homes, m)
+		}
+	}
+	home := homes[g.r.Intn(len(homes))]
+	gr := &Node{Kw: "grouping", Arg: g.name("g", home)}
+	empty := func(p *Node) {
+		e := p.add("container", g.name("c", home))
+		if g.chance(0.35) {
+			e.add("presence", "p")
+		}
+		g.empties = append(g.empties, e)
+	}
+	nested := func() {
+		o := gr.add("container", g.name("c", home))
+		g.leaf(o, g.name("f", home))
+		empty(o)
+	}
+	switch g.r.Intn(4) {
+	case 0:
+		empty(gr)
+	case 1:
+		nested()
+	case 2:
+		empty(gr)
+		nested()
+	default:
+		empty(gr)
+		empty(gr)
+		if g.chance(0.5) {
+			g.leaf(gr, g.name("f", home))
+		}
+	}
+	home.Groupings = append(home.Groupings, gr)
+	home.Body.Kids = append(home.Body.Kids, gr)
+	// users: the home module itself, other modules and submodules of other modules (they import home)
+	var others []*Module
+	for _, m := range g.mods {
+		if c07owner(m) != home {
+			others = append(others, m)
+		}
+	}
+	nu := 2 + g.r.Intn(2)
+	for i := 0; i < nu; i++ {
+		um := home
+		if len(others) > 0 && (i == nu-1 || g.chance(0.4)) && !(i == 1 && nu == 3) {
+			um = others[g.r.Intn(len(others))]
+		}
+		ref := gr.Arg
+		switch {
+		case um != home:
+			ref = um.ImportPrefix[home] + ":" + gr.Arg
+		case g.chance(0.3):
+			ref = home.Prefix + ":" + gr.Arg
+		}
+		c := um.Body.add("container", g.name("c", um))
+		if g.chance(0.4) {
+			g.leaf(c, g.name("f", um))
+		}
+		u := c.add("uses", ref)
+		u.Uses = gr
+	}
+}
+
+// emptyOp augments instances of one childless grouping container.
+func (g *c07g) emptyOp() {
+	name := C07ShapeNames[C07EmptyDir]
+	if len(g.empties) == 0 {
+		return
+	}
+	e := g.empties[g.r.Intn(len(g.empties))]
+	inst := g.cands(false, func(n *c07sn) bool { return n.stmt == e })
+	if len(inst) == 0 {
+		return
+	}
+	g.r.Shuffle(len(inst), func(i, j int) { inst[i], inst[j] = inst[j], inst[i] })
+	// writers of different modules (namespaces) where possible
+	ws := []*Module{g.writer(nil)}
+	for len(ws) < len(inst) {
+		var w *Module
+		for try := 0; try < 8; try++ {
+			w = g.writer(nil)
+			if c07owner(w) != c07owner(ws[len(ws)-1]) {
+				break
+			}
+		}
+		ws = append(ws, w)
+	}
+	on := func(i int, fill func(a *Node, t *c07sn)) {
+		w := ws[i]
+		if fill == nil {
+			fill = g.body(w, false)
+		}
+		g.augOn(w, inst[i], name, g.pathMode(w, inst[i]), fill)
+	}
+	g.seq++
+	same := fmt.Sprintf("same%d", g.seq)
+	sameFill := func(i int) func(a *Node, t *c07sn) {
+		w := ws[i]
+		kind := g.r.Intn(2)
+		return func(a *Node, t *c07sn) {
+			if kind == 0 {
+				g.leaf(a, same)
+			} else {
+				g.leaf(a.add("container", same), g.augName(w))
+			}
+			if g.chance(0.3) {
+				g.leaf(a, g.augName(w))
+			}
+		}
+	}
+	k := g.r.Intn(5)
+	if len(inst) < 2 {
+		k = 0
+	}
+	switch k {
+	case 0: // (a) one instance only: the others must stay empty
+		on(0, nil)
+	case 1: // (b) two instances from two modules
+		on(0, nil)
+		on(1, nil)
+	case 2: // (c) the same child name into two instances: no collision
+		on(0, sameFill(0))
+		on(1, sameFill(1))
+	case 3: // (d) into the empty node at one instance, into the parent node of another instance
+		on(0, nil)
+		if p := inst[1].n.parent; p != nil && p.parent != nil && c07augmentable(p) {
+			w := ws[1]
+			g.augOn(w, c07cand{inst[1].mod, p}, name, g.pathMode(w, inst[1]), g.body(w, false))
+		} else {
+			on(1, nil)
+		}
+	default: // every instance, the same child name everywhere
+		for i := range inst {
+			on(i, sameFill(i))
 		}
 	}
 }
@@ -959,6 +1125,8 @@ func (g *c07g) op(shape int) {
 				}
 			}
 		}
+	case C07EmptyDir:
+		g.emptyOp()
 	case C07Collision:
 		g.collision()
 	case C07NonContainer:
@@ -1393,6 +1561,11 @@ func (g *c07g) evaluate(s *C07Set) {
 				continue
 			}
 			target[a.info.ID] = t
+			for _, e := range g.empties {
+				if t.stmt == e {
+					a.info.Childless = true
+				}
+			}
 			// why the target exists
 			switch {
 			case t.flagged(func(x *c07sn) bool { return x.aug >= 0 }):
